@@ -687,9 +687,10 @@ func (il *inliner) inlineCall(pk *packages.Package, f *ast.File, file string, st
 	if len(resultNames) != 0 && len(resultNames) != nres {
 		return false
 	}
+	blankResults := false
 	for _, n := range resultNames {
 		if n == "_" {
-			return false
+			blankResults = true
 		}
 	}
 
@@ -917,6 +918,15 @@ func (il *inliner) inlineCall(pk *packages.Package, f *ast.File, file string, st
 	il.seq++
 	k := fmt.Sprintf("inl%d_%d", il.pass, il.seq)
 	label := k + "_L"
+	if blankResults {
+		// `(_ []byte, last bool, _ error)`: the blank results get names of their own
+		resultNames = append([]string(nil), resultNames...)
+		for i, n := range resultNames {
+			if n == "_" {
+				resultNames[i] = fmt.Sprintf("%s_nr%d", k, i)
+			}
+		}
+	}
 
 	// ---- body text with returns and labels rewritten
 	var resTemps []string
